@@ -305,6 +305,17 @@ class Translator:
                 o2, _ = self.block(st.orelse + rest, env,
                                    pc + ['(not %s)' % ct])
                 return out + o1 + o2, None
+            if isinstance(st, ast.Expr) and isinstance(st.value, ast.Call) \
+                    and isinstance(st.value.func, ast.Attribute) \
+                    and isinstance(st.value.func.value, ast.Name) \
+                    and st.value.func.attr == 'reverse' and not st.value.args:
+                # in-place reversal of a list display held in a local
+                name = st.value.func.value.id
+                lst = env.get(name)
+                if lst is None or lst.sort != 'list':
+                    raise CannotEncode('reverse() of a non-list')
+                env[name] = Val('list', None, items=list(reversed(lst.items)))
+                continue
             if isinstance(st, ast.Raise):
                 out.append((pc, Val('raise', None)))
                 return out, None
